@@ -279,6 +279,10 @@ type input struct {
 	note     string
 	// expectAccept: the full-environment normal variant (index 0) is expected to accept (corpus)
 	expectAccept bool
+	// lintMustAccept: lint mode has to accept this input (generated valid programs)
+	lintMustAccept bool
+	// expectReject: non-empty when the full-environment variant has to reject for this foreseeable reason
+	expectReject string
 }
 
 var pathsList = []string{"", "t.pory", "data/maps/Town/scripts.pory", `C:\maps\Town\scripts.pory`, "sp ace\"q.pory", "línea.pory"}
@@ -734,6 +738,18 @@ func buildBombs() []bombCase {
 			return "movement M { " + seq(d, func(i int) string { return fmt.Sprintf("walk%d * 9999", i) }, " ") + " }\n" +
 				script("applymovement(1, moves("+seq(d, func(i int) string { return fmt.Sprintf("run%d * 9999", i) }, ", ")+"))")
 		}},
+		// multipliers applied to (not valid today) parenthesised groups, to one another and to list poryswitches:
+		// each factor is within 1..9999, only their product is not
+		{"multiplier-nested-groups", []int{2, 3, 4, 5}, func(d int) string {
+			return "movement M { " + nest("(", ") * 9999", d, "walk_left walk_up") + " }\n" +
+				script("applymovement(1, moves("+nest("(", ") * 9999", d, "a b")+"))")
+		}},
+		{"multiplier-chained", []int{2, 3, 4, 5}, func(d int) string {
+			return "movement M { walk_up" + strings.Repeat(" * 9999", d) + " }\n"
+		}},
+		{"multiplier-on-poryswitch", []int{2, 3, 4}, func(d int) string {
+			return "movement M { " + nest("poryswitch(V) { A { w * 9999 ", " } _: z } * 9999 ", d, "q * 9999") + " }"
+		}},
 		{"shared-default-switch", moderate, func(d int) string {
 			return script(nest("switch (var(A)) { default: case 1:\n", "}\n", d, "if (flag(F)) { x }\n"))
 		}},
@@ -811,7 +827,12 @@ func (e *env) genGenerated(r *rand.Rand) input {
 			cfg.AutoVarCommands[name] = parser.AutoVarCommand{VarName: av.VarName}
 		}
 	}
-	in := input{src: pr.Src, note: "generated valid program"}
+	in := input{src: pr.Src, note: "generated valid program", lintMustAccept: true}
+	if _, rerr := spec.Resolve(prog, prog.Switches); rerr != nil || spec.AnyUnmatched(prog, prog.Switches) {
+		in.expectReject = "no poryswitch case found"
+	} else {
+		in.expectAccept = true
+	}
 	for _, opt := range []bool{true, false} {
 		o := e.fullOpts(cfg)
 		o.Switches = prog.Switches
